@@ -228,8 +228,67 @@ func c09DFeedGen() *rapid.Generator[c09DFeedCase] {
 	})
 }
 
+// c09SeqStorm: n datagrams, each the first fragment (flen bytes) of a different message_seq of a
+// message that announces total bytes and never completes.
+func c09SeqStorm(client bool, n, total, flen int) c09DFeedCase {
+	typ := byte(1)
+	if client {
+		typ = 2
+	}
+	c := c09DFeedCase{Client: client}
+	for i := 0; i < n; i++ {
+		hs := []byte{typ, byte(total >> 16), byte(total >> 8), byte(total), byte(i >> 8), byte(i), 0, 0, 0, byte(flen >> 16), byte(flen >> 8), byte(flen)}
+		hs = append(hs, make([]byte, flen)...)
+		d := []byte{22, 1, 1, 0, 0, 0, 0, 0, 0, byte(i >> 8), byte(i), byte(len(hs) >> 8), byte(len(hs))}
+		c.Dgrams = append(c.Dgrams, append(d, hs...))
+	}
+	return c
+}
+
+// c09StormCases: the enumerated storms (also run under C17: bounded pending fragment state).
+func c09StormCases() []c09DFeedCase {
+	var out []c09DFeedCase
+	for _, client := range []bool{false, true} {
+		for _, n := range []int{255, 256, 257, 400, 2000} {
+			for _, flen := range []int{1, 100} {
+				out = append(out, c09SeqStorm(client, n, 60000, flen))
+			}
+		}
+	}
+	return out
+}
+
+func TestVF_C17_PendingBound(t *testing.T) {
+	rec := vfRec("C17", "C17d-pending-bound", "storms of 255..2000 datagrams, each the first fragment of a different message_seq of a never-completing 60000-byte message, fed to a fresh client and server; oracle: at most 257 reassembly buffers pending, no panic, no spin; distinct = the case")
+	for i, c := range c09StormCases() {
+		if !vfMine(i) {
+			continue
+		}
+		sig, msg, depth := c09RunDFeed(c)
+		if sig != "" {
+			rec.Violation(sig, map[string]interface{}{"client": c.Client, "datagrams": len(c.Dgrams)}, "%s", msg)
+		}
+		rec.EvalHash(true, vfHash(c.Client, len(c.Dgrams), len(c.Dgrams[0])), func() interface{} {
+			return map[string]interface{}{"client": c.Client, "datagrams": len(c.Dgrams), "datagram_len": len(c.Dgrams[0])}
+		}, depth)
+	}
+	rec.SetExhaustive(true, "20 enumerated storms")
+}
+
 func TestVF_C09_Feed(t *testing.T) {
-	rec := vfRec("C09", "C09-feed", "generated datagram lists (raw; storms of handshake fragments with hostile total/offset/length/message_seq fields incl. lying lengths; foreign-address datagrams interleaved with a recorded conversation; mutations and duplications of a recorded conversation) fed to a fresh client or server that runs Handshake and then Read to exhaustion; oracle: no panic, no reading of an exhausted transport more than 200 times, pending reassembly buffers <= 257, handshake buffer within a fixed bound; non-trivial = at least one datagram with a complete record header; distinct = hash of the input")
+	rec := vfRec("C09", "C09-feed", "storms of one first fragment per message_seq (255..2000 datagrams); generated datagram lists (raw; storms of handshake fragments with hostile total/offset/length/message_seq fields incl. lying lengths; foreign-address datagrams interleaved with a recorded conversation; mutations and duplications of a recorded conversation) fed to a fresh client or server that runs Handshake and then Read to exhaustion; oracle: no panic, no reading of an exhausted transport more than 200 times, pending reassembly buffers <= 257, handshake buffer within a fixed bound; non-trivial = at least one datagram with a complete record header; distinct = hash of the input")
+	for i, c := range c09StormCases() {
+		if !vfMine(i) {
+			continue
+		}
+		sig, msg, depth := c09RunDFeed(c)
+		if sig != "" {
+			rec.Violation(sig, map[string]interface{}{"storm": "one first fragment per message_seq", "client": c.Client, "datagrams": len(c.Dgrams)}, "%s", msg)
+		}
+		rec.EvalHash(true, vfHash("storm", c.Client, len(c.Dgrams), len(c.Dgrams[0])), func() interface{} {
+			return map[string]interface{}{"storm": true, "client": c.Client, "datagrams": len(c.Dgrams)}
+		}, depth, "seq-storm")
+	}
 	vfRapid(t, rec, "feed", vfN(3000, 150000), func(t *rapid.T) {
 		c := c09DFeedGen().Draw(t, "case")
 		sig, msg, depth := c09RunDFeed(c)
